@@ -1988,11 +1988,11 @@ type r2p struct {
 }
 
 func (r *r2p) pipe(ctx context.Context) (r2p *pipe) {
-	r.m.RLock()
+	verifRLock(ctx, &r.m)
 	r2p = r.p
 	r.m.RUnlock()
 	if r2p == nil {
-		r.m.Lock()
+		verifWLock(ctx, &r.m)
 		if r.p != nil {
 			r2p = r.p
 		} else {
@@ -2009,7 +2009,7 @@ func (r *r2p) pipe(ctx context.Context) (r2p *pipe) {
 }
 
 func (r *r2p) Close() {
-	r.m.RLock()
+	verifRLock(context.Background(), &r.m)
 	if r.p != nil {
 		r.p.Close()
 	}
